@@ -342,6 +342,76 @@ def owner_ids(exe, launcher, top):
     return out
 
 
+def _walk_probe(exe, top, tag, fg, res):
+    """one start/stop with files already sitting at the seed, log, pid and socket names (key: always);
+    res[tag] = {site: set of flags path_is_secure was called with for that site's directory} or an error string"""
+    T = os.path.join(top, tag)
+    os.mkdir(T, 0o755)
+    os.chmod(T, 0o755)
+    paths, dirs = {}, {}
+    for d, f in (("kd", "key"), ("sd", "seed"), ("ld", "log"), ("rd", "sock"), ("pd", "pid")):
+        os.mkdir(os.path.join(T, d), 0o755)
+        os.chmod(os.path.join(T, d), 0o755)
+        paths[f] = os.path.join(T, d, f)
+        dirs[os.path.join(T, d)] = f
+    for f, data, mode in (("key", os.urandom(32), 0o600), ("seed", os.urandom(1024), 0o600), ("log", b"", 0o600),
+                          ("pid", b"", 0o644), ("sock", b"", 0o600)):
+        with open(paths[f], "wb") as fh:
+            fh.write(data)
+        os.chmod(paths[f], mode)
+    pis = os.path.join(T, "pis.log")
+    errf = os.path.join(T, "stderr")
+    argv = [exe] + (["-F"] if fg else []) + ["-S", paths["sock"], "--key-file=" + paths["key"],
+            "--pid-file=" + paths["pid"], "--seed-file=" + paths["seed"], "--log-file=" + paths["log"],
+            "--group-update-time=-1", "--origin=127.0.0.1", "--num-threads=1"]
+    with open(errf, "wb") as ef:
+        p = subprocess.Popen(argv, env=dict(os.environ, VERIF_PIS_LOG=pis), stdin=subprocess.DEVNULL, stdout=ef,
+                             stderr=ef, cwd="/")
+    try:
+        t0 = time.time()
+        while time.time() - t0 < 15 and not (os.path.exists(paths["pid"]) and os.path.getsize(paths["pid"]) > 0):
+            if p.poll() is not None and (fg or p.returncode != 0):
+                break
+            time.sleep(0.01)
+        try:
+            dpid = int(open(paths["pid"]).read().strip())
+        except Exception:
+            dpid = None
+        for _ in range(40):
+            if dpid is None:
+                break
+            try:
+                os.kill(dpid, signal.SIGTERM)
+            except OSError:
+                break
+            time.sleep(0.05)
+            try:
+                if open("/proc/%d/stat" % dpid).read().split(")")[-1].split()[0] == "Z":
+                    break
+            except OSError:
+                break
+        try:
+            p.wait(timeout=5)
+        except subprocess.TimeoutExpired:
+            pass
+    finally:
+        if p.poll() is None:
+            p.kill()
+            p.wait()
+        kill_by_marker(T)
+    if dpid is None:
+        res[tag] = "munged did not come up over existing files (%s): %s" % (
+            "foreground" if fg else "daemon", open(errf, errors="replace").read()[-400:])
+        return
+    sites = {}
+    if os.path.exists(pis):
+        for line in open(pis):
+            f = line.split()
+            if len(f) == 3 and f[0] == "PIS" and f[1] in dirs:
+                sites.setdefault(dirs[f[1]], set()).add(int(f[2]))
+    res[tag] = sites
+
+
 def observe(repo, incs, defs, probes_dir):
     """returns (flags per call site, {('fg'|'bg', file): (req, keep, or, chmod, how)}, {site: owner id})"""
     if not shutil.which("strace"):
@@ -365,6 +435,11 @@ def observe(repo, incs, defs, probes_dir):
 
         idt = threading.Thread(target=run_ids)
         idt.start()
+        wres, wth = {}, []
+        for fg in (True, False):
+            t = threading.Thread(target=_walk_probe, args=(exe, top, "walk_" + ("fg" if fg else "bg"), fg, wres))
+            t.start()
+            wth.append(t)
         res, th = {}, []
         for fg in (True, False):
             for u in PROBE_UMASKS:
@@ -375,6 +450,8 @@ def observe(repo, incs, defs, probes_dir):
         for t in th:
             t.join()
         idt.join()
+        for t in wth:
+            t.join()
         if "err" in ids_box:
             raise RuntimeError(str(ids_box["err"]))
         for tag, r in sorted(res.items()):
@@ -393,6 +470,22 @@ def observe(repo, incs, defs, probes_dir):
             if len(seen) != 1:
                 raise RuntimeError("call site %s passes varying flags %s" % (s, sorted(seen)))
             flags[s] = seen.pop()
+        # the same walks over names that are occupied already: (walk runs on a fresh name, on an occupied one)
+        walk = {}
+        for s in SITES:
+            tags = ("walk_bg",) if s == "log" else ("walk_fg", "walk_bg")
+            for tg_ in tags:
+                if not isinstance(wres.get(tg_), dict):
+                    raise RuntimeError(str(wres.get(tg_, "walk probe %s did not run" % tg_)))
+            seen = [wres[tg_].get(s, set()) for tg_ in tags]
+            if any(x and x != {flags[s]} for x in seen):
+                raise RuntimeError("call site %s passes other flags when the file exists already: %s" % (s, seen))
+            if any(seen) and not all(seen):
+                raise RuntimeError("call site %s walks the directory of an existing file in one mode only" % s)
+            occupied = all(seen)
+            # the key always exists when its directory is looked at (a missing key is fatal before)
+            walk[s] = (occupied if s == "key" else True, occupied)
+        flags["walk"] = walk
         so = set()
         for r in res.values():
             so |= r.get("seed_open", set())
@@ -440,6 +533,10 @@ def gen(api):
     out.append("(* flags each call site hands to path_is_secure (observed through -Wl,--wrap on a real start) *)")
     for s in SITES:
         out.append("Definition %s_flags : N := %d." % (s, flags[s]))
+    out.append("(* does the directory walk of each site run: (when nothing is at the file's name, when a file is there")
+    out.append("   already) - observed on starts over fresh names and over occupied ones *)")
+    for s in SITES:
+        out.append("Definition %s_walk : bool * bool := (%s, %s)." % ((s,) + tuple("true" if x else "false" for x in flags["walk"][s])))
     out.append("(* does _random_read_seed open the seed with O_NONBLOCK (a FIFO in its place cannot block the start) *)")
     out.append("Definition seed_open_nonblock : bool := %s." % ("true" if flags["seed_open_nonblock"] else "false"))
     out.append("(* recipe of each created file: (requested mode, keep, or, final chmod); the umask in force at the")
